@@ -51,7 +51,8 @@ Next == /\ l <= Len(Trace)
              \* of them is in the payload (C03), and the payload is the same for every order of inclusion (C11)
              [] e.ev = "tie" ->
                   IF e.ret # "ok" THEN Rej("C03", "marshal-panicked")
-                  ELSE /\ IF e.both_there THEN TRUE ELSE Rej("C03", "NONE")
+                  \* ((fixed) Include took "id type" as the identity: one of two resources that read alike was dropped)
+                  ELSE /\ IF e.both_there THEN TRUE ELSE Rej("C03", "Dev_IncludeIdentityByConcatenation")
                        /\ IF e.same THEN TRUE ELSE Rej("C11", "NONE")
              [] e.ev = "dupname" ->
                   IF e.ret # "ok" THEN Rej("C03", "marshal-panicked")
